@@ -267,4 +267,98 @@ theorem iter_wf {θ γ μ σ : Type} (S : Step θ γ μ σ) (r : Recon θ μ σ)
   exact ⟨schedModel_wf S _ _ (stepModel_wf S _ _ _ h1), schedModel_wf S _ _ (stepModel_wf S _ _ _ h2),
          schedModel_wf S _ _ (stepModel_wf S _ _ _ h3)⟩
 
+/-! ### re-binding onto new tensors (the fallback branch: position in the previous param group) -/
+
+theorem lookup_setKey {κ ν : Type} [DecidableEq κ] (k b : κ) (v : ν) :
+    ∀ (d : List (κ × ν)), lookup b (setKey k v d) = if k = b then some v else lookup b d
+  | [] => by simp [setKey, lookup]
+  | (k', v') :: rest => by
+      by_cases h : k' = k
+      · subst h
+        by_cases hb : k' = b <;> simp [setKey, lookup, hb]
+      · by_cases hb : k' = b
+        · subst hb
+          have : ¬ k = k' := fun e => h e.symm
+          simp [setKey, lookup, h, this]
+        · simp [setKey, lookup, h, hb, lookup_setKey k b v rest]
+
+/-- the fallback of `target`: position in the previous param group = lookup in `old.zip cur` -/
+theorem fallback_eq_lookup_zip (k : PId) : ∀ (old cur : List PId),
+    (match idxOf k old with | some i => cur[i]? | none => none) = lookup k (old.zip cur)
+  | [], cur => by simp [idxOf, lookup]
+  | p :: rest, [] => by
+      simp only [List.zip_nil_right, lookup]
+      cases idxOf k (p :: rest) <;> simp
+  | p :: rest, c :: cs => by
+      by_cases h : p = k
+      · simp [idxOf, lookup, h]
+      · have ih := fallback_eq_lookup_zip k rest cs
+        simp only [idxOf, h, if_false, List.zip_cons_cons, lookup]
+        cases hi : idxOf k rest with
+        | none => simp [hi] at ih ⊢; exact ih
+        | some i => simp [hi] at ih ⊢; exact ih
+
+theorem lookup_zip_of_mem : ∀ (old cur : List PId) (a b : PId), old.Nodup → (a, b) ∈ old.zip cur →
+    lookup a (old.zip cur) = some b
+  | [], _, _, _, _, h => by simp at h
+  | _ :: _, [], _, _, _, h => by simp at h
+  | p :: rest, c :: cs, a, b, hnd, h => by
+      have hnd' : p ∉ rest ∧ rest.Nodup := by simpa using hnd
+      simp only [List.zip_cons_cons, List.mem_cons, Prod.mk.injEq] at h
+      rcases h with ⟨h1, h2⟩ | h
+      · simp [lookup, h1, h2]
+      · have ha : a ∈ rest := (List.of_mem_zip h).1
+        have hp : p ≠ a := fun e => hnd'.1 (e ▸ ha)
+        simp [lookup, hp, lookup_zip_of_mem rest cs a b hnd'.2 h]
+
+theorem exists_partner : ∀ (old cur : List PId) (k : PId), k ∈ old → old.length ≤ cur.length →
+    ∃ b, (k, b) ∈ old.zip cur
+  | [], _, _, h, _ => by simp at h
+  | _ :: _, [], _, _, hl => by simp at hl
+  | p :: rest, c :: cs, k, h, hl => by
+      rcases List.mem_cons.mp h with h1 | h1
+      · exact ⟨c, by simp [h1]⟩
+      · obtain ⟨b, hb⟩ := exists_partner rest cs k h1 (by simpa using hl)
+        exact ⟨b, by simp [hb]⟩
+
+theorem zip_snd_inj : ∀ (old cur : List PId) (k a b : PId), cur.Nodup → (k, b) ∈ old.zip cur → (a, b) ∈ old.zip cur → k = a
+  | [], _, _, _, _, _, h, _ => by simp at h
+  | _ :: _, [], _, _, _, _, h, _ => by simp at h
+  | p :: rest, c :: cs, k, a, b, hnd, h1, h2 => by
+      have hnd' : c ∉ cs ∧ cs.Nodup := by simpa using hnd
+      simp only [List.zip_cons_cons, List.mem_cons, Prod.mk.injEq] at h1 h2
+      rcases h1 with ⟨e1, e2⟩ | h1 <;> rcases h2 with ⟨f1, f2⟩ | h2
+      · rw [e1, f1]
+      · exact absurd (e2 ▸ (List.of_mem_zip h2).2) hnd'.1
+      · exact absurd (f2 ▸ (List.of_mem_zip h1).2) hnd'.1
+      · exact zip_snd_inj rest cs k a b hnd'.2 h1 h2
+
+theorem rekey_moved {μ : Type} (cur old : List PId) (hlen : old.length ≤ cur.length) (hndo : old.Nodup) (hndc : cur.Nodup) :
+    ∀ (st acc : List (PId × μ)), (st.map (·.1)).Nodup → (∀ k ∈ st.map (·.1), k ∈ old ∧ k ∉ cur) →
+      ∀ a b, (a, b) ∈ old.zip cur →
+        lookup b (rekey cur old st acc) = match lookup a st with | some m => some m | none => lookup b acc
+  | [], acc, _, _, a, b, _ => by simp [rekey, lookup]
+  | (k, m) :: rest, acc, hnd, hin, a, b, hab => by
+      have hnd' : k ∉ rest.map (·.1) ∧ (rest.map (·.1)).Nodup := by simpa using hnd
+      have hk := hin k (by simp)
+      obtain ⟨k', hk'⟩ := exists_partner old cur k hk.1 hlen
+      have ht : target cur old k = some k' := by
+        have hc : cur.contains k = false := by simpa using hk.2
+        simp only [target, hc, Bool.false_eq_true, if_false]
+        exact (fallback_eq_lookup_zip k old cur).trans (lookup_zip_of_mem old cur k k' hndo hk')
+      rw [rekey, ht]
+      simp only
+      rw [rekey_moved cur old hlen hndo hndc rest (setKey k' m acc) hnd'.2 (fun x hx => hin x (by simp [hx])) a b hab,
+        lookup_setKey]
+      by_cases hak : k = a
+      · subst hak
+        have hb : k' = b := by
+          have h1 := lookup_zip_of_mem old cur k k' hndo hk'
+          have h2 := lookup_zip_of_mem old cur k b hndo hab
+          rw [h1] at h2; exact Option.some.inj h2
+        have hn : lookup k rest = none := lookup_none_of_not_mem k rest hnd'.1
+        simp [lookup, hn, hb]
+      · have hb : k' ≠ b := fun e => hak (zip_snd_inj old cur k a b hndc (e ▸ hk') hab)
+        simp [lookup, hak, hb]
+
 end QuantemModel.Checkpoint
